@@ -124,11 +124,11 @@ func c15(c *an.Ctx) {
 	{
 		r := c.Rule("C15.R3", "K-DETERMINISM", "apply handlers and the catalogue methods they reach use no wall clock / random source except at the frozen sites")
 		frozen := map[string]string{
-			metaPkg + ":(*Data).DeleteShardGroup → time.Now":        "deletion stamp (the property compares deletion stamps only as set/unset)",
-			metaPkg + ":(*Data).DeleteIndexGroup → time.Now":        "deletion stamp",
-			metaPkg + ":(*Data).MarkMeasurementDelete → time.Now":   "deletion stamp",
-			metaPkg + ":(*Data).markShardGroupDelete → time.Now":    "deletion stamp",
-			metaPkg + ":(*Data).markIndexGroupDelete → time.Now":    "deletion stamp",
+			metaPkg + ":(*Data).DeleteShardGroup → time.Now":      "deletion stamp (the property compares deletion stamps only as set/unset)",
+			metaPkg + ":(*Data).DeleteIndexGroup → time.Now":      "deletion stamp",
+			metaPkg + ":(*Data).MarkMeasurementDelete → time.Now": "deletion stamp",
+			metaPkg + ":(*Data).markShardGroupDelete → time.Now":  "deletion stamp",
+			metaPkg + ":(*Data).markIndexGroupDelete → time.Now":  "deletion stamp",
 		}
 		roots := map[*types.Func]bool{}
 		af := c.P.Obj(SM + ":applyFunc")
@@ -224,7 +224,7 @@ func c15(c *an.Ctx) {
 		// (b) map-order dependent picks: a range over a map that is left early (break/return) selects an
 		// arbitrary element; allowed only at the frozen sites whose use of the pick is order-independent
 		pickOK := map[string]string{
-			metaPkg + ":(*Data).CreateShardGroup":                        "picks any measurement of the policy only to read ShardKeys[0].Type, which validMeasurementShardType keeps uniform within a policy (checked below)",
+			metaPkg + ":(*Data).CreateShardGroup":                         "picks any measurement of the policy only to read ShardKeys[0].Type, which validMeasurementShardType keeps uniform within a policy (checked below)",
 			metaPkg + ":(*RetentionPolicyInfo).validMeasurementShardType": "compares the new sharding type with any other measurement; uniformity is the inductive invariant (skip only the measurement itself, checked below)",
 		}
 		for fo := range seen {
@@ -415,13 +415,14 @@ var c15CloneShares = map[string]string{
 }
 
 // c15snapshotLoops: the snapshot is Marshal(Clone(data)).
-//   R6  a marshal loop over a member of the catalogue copies EVERY element: an
-//       element that is filtered out of the snapshot (but kept by a replica that
-//       applied the log) makes restored and log-applying replicas diverge.
-//   R7  a clone loop never stores the source's own slice/map/pointer element in
-//       the copy (directly or re-sliced): commands applied after Snapshot() edit
-//       such elements in place and would leak into a snapshot labelled with an
-//       older index.
+//
+//	R6  a marshal loop over a member of the catalogue copies EVERY element: an
+//	    element that is filtered out of the snapshot (but kept by a replica that
+//	    applied the log) makes restored and log-applying replicas diverge.
+//	R7  a clone loop never stores the source's own slice/map/pointer element in
+//	    the copy (directly or re-sliced): commands applied after Snapshot() edit
+//	    such elements in place and would leak into a snapshot labelled with an
+//	    older index.
 func c15snapshotLoops(c *an.Ctx) {
 	const M = metaPkg
 	r6 := c.Rule("C15.R6", "K-LOOPSELECT", M+": marshal loops over catalogue members copy every element (no continue/break/filter)")
@@ -741,21 +742,21 @@ func fieldCoverage(c *an.Ctx) {
 func covExceptions() map[string]string {
 	opLog := "node-local operation log of the incremental data sync (Restore re-attaches it with SetOps); not part of the replicated catalogue"
 	return map[string]string{
-		"Data.OpsMap clone-alias":           opLog,
-		"Data.OpsMap marshal":               opLog,
-		"Data.OpsMap unmarshal":             opLog,
-		"Data.opsMapMu marshal":             "mutex",
-		"Data.opsMapMu unmarshal":           "mutex",
-		"Data.OpsMapMinIndex marshal":       opLog,
-		"Data.OpsMapMinIndex unmarshal":     opLog,
-		"Data.OpsMapMaxIndex marshal":       opLog,
-		"Data.OpsMapMaxIndex unmarshal":     opLog,
-		"Data.OpsToMarshalIndex marshal":    opLog,
-		"Data.OpsToMarshalIndex unmarshal":  opLog,
-		"Data.SQLite clone-alias":           "handle of the node-local SQLite file catalogue; shared on purpose",
-		"Data.ExpandShardsEnable marshal":   "set from the node's configuration at start (declared 'not persistence')",
-		"Data.ExpandShardsEnable unmarshal": "set from the node's configuration at start (declared 'not persistence')",
-		"Data.AdminUserExists marshal":      "derived: recomputed from Users by Unmarshal (HasAdminUser)",
+		"Data.OpsMap clone-alias":                     opLog,
+		"Data.OpsMap marshal":                         opLog,
+		"Data.OpsMap unmarshal":                       opLog,
+		"Data.opsMapMu marshal":                       "mutex",
+		"Data.opsMapMu unmarshal":                     "mutex",
+		"Data.OpsMapMinIndex marshal":                 opLog,
+		"Data.OpsMapMinIndex unmarshal":               opLog,
+		"Data.OpsMapMaxIndex marshal":                 opLog,
+		"Data.OpsMapMaxIndex unmarshal":               opLog,
+		"Data.OpsToMarshalIndex marshal":              opLog,
+		"Data.OpsToMarshalIndex unmarshal":            opLog,
+		"Data.SQLite clone-alias":                     "handle of the node-local SQLite file catalogue; shared on purpose",
+		"Data.ExpandShardsEnable marshal":             "set from the node's configuration at start (declared 'not persistence')",
+		"Data.ExpandShardsEnable unmarshal":           "set from the node's configuration at start (declared 'not persistence')",
+		"Data.AdminUserExists marshal":                "derived: recomputed from Users by Unmarshal (HasAdminUser)",
 		"Data.UpdateNodeTmpIndexCommandStart marshal": "volatile bookkeeping of the temporary node indexes: Unmarshal resets it to Data.Index so every tmp index reported before the restore counts as stale",
 		"DataNode.Index marshal":                      "temporary sync index of a node (UpdateNodeTmpIndexCommand); volatile by design, invalidated after a restore through UpdateNodeTmpIndexCommandStart",
 		"DataNode.Index unmarshal":                    "temporary sync index of a node (UpdateNodeTmpIndexCommand); volatile by design",
